@@ -24,6 +24,7 @@ func init() {
 		TrieLevel(c, "R-LEVEL", c.Pkg("immutable"))
 		TrieResized(c, "R-RESIZED", c.Pkg("immutable"))
 		WrapperCtx(c, "R-SETCTX", c.Pkg("fp"), 2)
+		TrieSlotCount(c, "R-SLOTCOUNT", c.Pkg("immutable"))
 	})
 }
 
